@@ -60,7 +60,17 @@ def g_set_pred(r, t0):
     return {"kind": "set", "init": occs[0]["t"][0] if isinstance(occs[0]["t"], list) else occs[0]["t"], "occs": occs}
 
 
-def g_obstacle(r, oid, role=None):
+def g_obstacle(r, oid, role=None, focus=False):
+    """focus: a dynamic car with rectangle shape and trajectory prediction (the only kind that can get an icon)."""
+    if focus:
+        o = g_obstacle(r, oid, "dynamic")
+        n = r.choice([2, 3, 6])
+        o.update(type=r.choice(["CAR", "TRUCK", "BUS", "BICYCLE", "TAXI", "PARKED_VEHICLE"]), shape=["rect", 4.5, 2.0, 0.0, 0.0, 0.0],
+                 pred={"kind": "traj", "states": [{"pos": g_pos(r, 0.2), "orient": r.choice([0.0, 0.4, -1.0]),
+                                                  "vel": r.choice([0.0, 2.0, 20.0])} for _ in range(n)]})
+        o["sigs"] = [g_signal(r) for _ in range(n)]
+        o["sig0"] = g_signal(r)
+        return o
     role = role or r.choice(["static", "dynamic", "dynamic", "dynamic", "dynamic", "phantom", "env"])
     if role == "env":
         return {"id": oid, "role": role, "type": r.choice(OBST_TYPES_ENV), "shape": g_shape(r)}
